@@ -353,3 +353,19 @@ def carry_scenarios():
                        XP(second_name, [J("b", 2, [("a", kind)]), J("c", 3), J("d", 5, [("b", "ups"), ("o", "up")])])]
                 out.append(sc(f"carry:{kind}:code{code}:{second_name}", "carry" + (":fail" if code else ""), [ops]))
     return out
+
+
+def reparam_scenarios():
+    """The same job (same identifier) submitted again with another value of a Meta parameter after its first process failed or
+    was left without a success marker: the process launched for the second submission must read the second values."""
+    W = lambda v: {"op": "wait", "var": v}
+    out = []
+    out.append(sc("reparam:same-experiment", "reparam", [[XP("xp", [J("a", 1, code=1), W("a"), dict(J("a2", 1, code=0), dup_of="a", after_fail=True)])]], expect_exits={1: [1, 0]}))
+    out.append(sc("reparam:same-experiment:3", "reparam", [[XP("xp", [J("a", 1, code=2), W("a"), dict(J("a2", 1, code=3), dup_of="a", after_fail=True), W("a2"),
+                                                                     dict(J("a3", 1, code=0), dup_of="a", after_fail=True), J("b", 2, [("a3", "up")])])]],
+                  expect_exits={1: [2, 3, 0], 2: [0]}))
+    out.append(sc("reparam:second-experiment", "reparam", [[XP("xp", [J("a", 1, code=1)]), XP("xp", [J("a_", 1, code=0), J("b", 2, [("a_", "up")])])]],
+                  expect_exits={1: [1, 0], 2: [0]}))
+    out.append(sc("reparam:other-experiment", "reparam", [[XP("xp1", [J("a", 1, code=4)]), XP("xp2", [J("a_", 1, code=5)]), XP("xp1", [J("a__", 1, code=0)])]],
+                  expect_exits={1: [4, 5, 0]}))
+    return out
